@@ -10,14 +10,14 @@ using namespace pbt;
 struct Fault { int fn = 0, k = 0, err = 0; };
 struct LifeCase {
   int nthreads = 1, flags = 0, skip_first = 0, attach_first = 0, nmsgs = 0, msg_pvt = 0, timer = 0, pipe_ev = 0, wait_early = 0,
-      shutdown_mode = 0, late_calls = 0, wait_mode = 1, destroy_in_pool_first = 0;
+      shutdown_mode = 0, late_calls = 0, wait_mode = 1, destroy_in_pool_first = 0, slow_stop = 0;
   Bytes plan;
   std::vector<Fault> faults;
   std::string ser() const {
     Writer w;
     w.i("nthreads", nthreads).i("flags", flags).i("skip_first", skip_first).i("attach_first", attach_first).i("nmsgs", nmsgs)
         .i("msg_pvt", msg_pvt).i("timer", timer).i("pipe_ev", pipe_ev).i("wait_early", wait_early).i("shutdown_mode", shutdown_mode)
-        .i("late_calls", late_calls).i("wait_mode", wait_mode).i("destroy_in_pool_first", destroy_in_pool_first);
+        .i("late_calls", late_calls).i("wait_mode", wait_mode).i("destroy_in_pool_first", destroy_in_pool_first).i("slow_stop", slow_stop);
     w.b("plan", plan);
     std::vector<long long> f;
     for (auto &x : faults) { f.push_back(x.fn); f.push_back(x.k); f.push_back(x.err); }
@@ -30,7 +30,7 @@ struct LifeCase {
     c.nthreads = (int)r.i("nthreads", 1); c.flags = (int)r.i("flags"); c.skip_first = (int)r.i("skip_first"); c.attach_first = (int)r.i("attach_first");
     c.nmsgs = (int)r.i("nmsgs"); c.msg_pvt = (int)r.i("msg_pvt"); c.timer = (int)r.i("timer"); c.pipe_ev = (int)r.i("pipe_ev");
     c.wait_early = (int)r.i("wait_early"); c.shutdown_mode = (int)r.i("shutdown_mode"); c.late_calls = (int)r.i("late_calls");
-    c.wait_mode = (int)r.i("wait_mode", 1); c.destroy_in_pool_first = (int)r.i("destroy_in_pool_first");
+    c.wait_mode = (int)r.i("wait_mode", 1); c.destroy_in_pool_first = (int)r.i("destroy_in_pool_first"); c.slow_stop = (int)r.i("slow_stop");
     c.plan = r.b("plan");
     auto f = r.iv("faults");
     for (size_t j = 0; j + 3 <= f.size(); j += 3) c.faults.push_back(Fault{(int)f[j], (int)f[j + 1], (int)f[j + 2]});
@@ -153,7 +153,7 @@ static void to_scn(const LifeCase &c, c11_scn &s) {
   s.flags = (uint8_t)c.flags; s.skip_first = (uint8_t)c.skip_first; s.attach_first = (uint8_t)c.attach_first;
   s.nmsgs = (uint8_t)std::min(200, c.nmsgs); s.msg_pvt = (uint8_t)c.msg_pvt; s.timer = (uint8_t)c.timer; s.pipe_ev = (uint8_t)c.pipe_ev;
   s.wait_early = (uint8_t)c.wait_early; s.shutdown_mode = (uint8_t)c.shutdown_mode; s.late_calls = (uint8_t)c.late_calls;
-  s.wait_mode = (uint8_t)c.wait_mode; s.destroy_in_pool_first = (uint8_t)c.destroy_in_pool_first;
+  s.wait_mode = (uint8_t)c.wait_mode; s.destroy_in_pool_first = (uint8_t)c.destroy_in_pool_first; s.slow_stop = (uint8_t)c.slow_stop;
   s.plans.plan_len = (uint32_t)std::min<size_t>(c.plan.size(), TP_PLAN_MAX);
   memcpy(s.plans.plan, c.plan.data(), s.plans.plan_len);
   s.plans.nfaults = (uint32_t)std::min<size_t>(c.faults.size(), TP_FAULT_MAX);
@@ -176,8 +176,10 @@ static rc::Gen<LifeCase> genCase() {
     LifeCase c;
     c.nthreads = *rc::gen::element(1, 2, 2, 3, 4, 8, 16);
     c.flags = *range<int>(0, 3);
-    c.skip_first = *rc::gen::weightedElement<int>({{3, 0}, {1, 1}});
-    c.attach_first = c.skip_first ? *range<int>(0, 1) : 0;
+    c.skip_first = *rc::gen::weightedElement<int>({{2, 0}, {1, 1}});
+    c.attach_first = c.skip_first ? *rc::gen::weightedElement<int>({{1, 0}, {2, 1}}) : 0;
+    // a thread whose stop hook takes a moment: preferably the attached one (it cannot be joined, only waited for)
+    c.slow_stop = *rc::gen::weightedElement<int>({{3, 0}, {2, c.attach_first ? 1 : 1 + *range<int>(0, c.nthreads - 1)}, {1, 1 + *range<int>(0, c.nthreads - 1)}});
     c.nmsgs = *rc::gen::weightedElement<int>({{2, 0}, {3, *range<int>(1, 40)}});
     c.msg_pvt = *range<int>(0, 1);
     if (c.skip_first && !c.attach_first && c.nthreads == 1) c.msg_pvt = 0;
